@@ -98,7 +98,7 @@ func genGrpcBroker(o opts, mux bool) []gbCase {
 	directed := [][]gbEvent{
 		{{0, "host", "accept", 10}, {200, "plugin", "dial", 10}, {0, "plugin", "accept", 1010}, {300, "host", "dial", 1010}},
 		{{0, "plugin", "dial", 10}, {800, "host", "accept", 10}, {100, "host", "dial", 1010}, {900, "plugin", "accept", 1010}},
-		{{0, "plugin", "dial", 10}, {0, "host", "dial", 1010}}, // nobody accepts
+		{{0, "plugin", "dial", 10}, {0, "host", "dial", 1010}},     // nobody accepts
 		{{0, "host", "accept", 10}, {0, "plugin", "accept", 1010}}, // nobody dials
 		{{0, "host", "accept", 10}, {0, "host", "accept", 11}, {0, "host", "accept", 12}, {600, "plugin", "dial", 12}, {700, "plugin", "dial", 10}, {800, "plugin", "dial", 11}},
 		{{0, "plugin", "accept", 1010}, {0, "plugin", "accept", 1011}, {0, "plugin", "accept", 1012}, {500, "host", "dial", 1011}, {900, "host", "dial", 1010}, {1300, "host", "dial", 1012}},
